@@ -37,6 +37,7 @@ structure Step where
   files : List (String × Option Bytes)
   marks : List Int
   kwd : Bytes
+  kwdDir : Int
   fired : Nat
 deriving Repr
 
@@ -59,7 +60,7 @@ def parseStep (s : String) : Option Step :=
            files := if files == "" then [] else (files.splitOn ",").filterMap (fun f => match f.splitOn "=" with
              | [n, d] => some (n, if d == "A" then none else some (hexBytes d)) | _ => none),
            marks := if marks == "" then [] else (marks.splitOn ".").map intOf,
-           kwd := hexBytes kwd, fired := natOf fired }
+           kwd := hexBytes ((kwd.splitOn ".").getD 0 "-"), kwdDir := intOf ((kwd.splitOn ".").getD 1 "0"), fired := natOf fired }
   | _ => none
 
 def str (b : Bytes) : String := String.ofList (b.map (fun c => Char.ofNat c))
@@ -107,6 +108,14 @@ def RefSt.ofText (t : Bytes) (from_ : Nat := 0) : RefSt :=
 def RefSt.text (s : RefSt) : Bytes := (s.lines.map (·.2)).flatten
 def RefSt.n (s : RefSt) : Int := s.lines.length
 
+/-- restart the reference from a dumped state of the implementation: text, marks and the search keyword -/
+def RefSt.resync (s : RefSt) (st : Step) : RefSt :=
+  let r := RefSt.ofText st.text s.nextId
+  { r with kwd := st.kwd, kwdDir := st.kwdDir,
+           marks := (List.range st.marks.length).filterMap (fun i =>
+             let v := st.marks.getD i (-1)
+             if v ≥ 0 && i < 26 then some (97 + i, s.nextId + v.toNat) else none) }
+
 def idxOfId (s : RefSt) (id : Nat) : Option Nat := (List.range s.lines.length).find? (fun i => (s.lines.getD i (0, [])).1 == id)
 
 /-- parse a decimal number prefix -/
@@ -122,8 +131,14 @@ def refAddr (s : RefSt) (cur : Int) (icase : Bool) (a : Bytes) : Option (Option 
     else if c == 36 then some (some (s.n - 1), a.drop 1, s)
     else if c == 39 then
       let m := a.getD 1 0
-      let pos := (s.marks.find? (·.1 == m)).bind (fun p => idxOfId s p.2)
-      some (pos.map (fun (i : Nat) => (i : Int)), a.drop 2, s)
+      -- a mark whose own line was replaced or deleted is outside the judged grammar: the property speaks of
+      -- marks while lines are added or removed *elsewhere*
+      match s.marks.find? (·.1 == m) with
+      | none => some (none, a.drop 2, s)
+      | some p =>
+        match idxOfId s p.2 with
+        | none => none
+        | some i => some (some (i : Int), a.drop 2, s)
     else if c == 47 || c == 63 then
       -- pattern up to the unescaped delimiter
       let body := a.drop 1
@@ -178,7 +193,7 @@ def refRegion (s : RefSt) (cur : Int) (icase : Bool) (loc : Bytes) : Option (Opt
         match refAddr s cur icase loc with
         | none => none
         | some (v, rest, s) =>
-          let bad := bad || v.isNone
+          let bad := bad || v.isNone || (match v with | some x => x < -1 | none => false)
           let first := if cnt == 0 then v else prev
           let cnt := cnt + 1
           if rest.isEmpty then
@@ -228,18 +243,18 @@ structure J06 where
 def lineCmds : List String := ["a", "i", "c", "d", "y", "pu", "p", "=", "k", ""]
 
 def judge06Step (j : J06) (prev next : Step) (ln : Bytes) (txt : Bytes) (icase : Bool) : J06 :=
-  let resync : J06 := { j with st := { RefSt.ofText next.text j.st.nextId with kwd := j.st.kwd, kwdDir := j.st.kwdDir } }
+  let resync : J06 := { j with st := (j.st.resync next) }
   if !isSingle ln then resync else
   let (loc, cmd, arg) := splitCmd ln
   let cs := str cmd
   if !lineCmds.contains cs then resync else
   -- the reference must start from the text the implementation had
-  let s := if j.st.text == prev.text then j.st else { RefSt.ofText prev.text j.st.nextId with kwd := j.st.kwd, kwdDir := j.st.kwdDir }
+  let s := if j.st.text == prev.text then j.st else (j.st.resync prev)
   match refRegion s prev.xrow icase loc with
-  | none => { j with st := { RefSt.ofText next.text s.nextId with kwd := s.kwd, kwdDir := s.kwdDir } }
+  | none => { j with st := (s.resync next) }
   | some (reg, given, s) =>
     if given == 0 && !(0 ≤ prev.xrow && prev.xrow < s.n) && s.n != 0 then
-      { j with st := { RefSt.ofText next.text s.nextId with kwd := s.kwd, kwdDir := s.kwdDir } } else
+      { j with st := (s.resync next) } else
     let new := linesOf txt
     let regName := Ex.regName arg
     let addsText := cs == "a" || cs == "pu"
@@ -277,11 +292,11 @@ def judge06Step (j : J06) (prev next : Step) (ln : Bytes) (txt : Bytes) (icase :
            else some (some s))
         else some (some s)     -- y p = and the bare address never change the text
   match exp with
-  | none => { j with st := { RefSt.ofText next.text s.nextId with kwd := s.kwd, kwdDir := s.kwdDir } }
+  | none => { j with st := (s.resync next) }
   | some none =>
     let errs := if next.text == prev.text then [] else
       [s!"clause=invalid_region_unchanged cmd={str ln} the address does not resolve to existing lines but the buffer changed"]
-    { st := { RefSt.ofText next.text s.nextId with kwd := s.kwd, kwdDir := s.kwdDir }, errs := j.errs ++ errs }
+    { st := (s.resync next), errs := j.errs ++ errs }
   | some (some s') =>
     let e1 := if next.text == s'.text then [] else
       [s!"clause=ec_{if cs == "" then "null" else cs}_spec cmd={str ln} want={bytesHex s'.text} got={bytesHex next.text}" ++
@@ -313,7 +328,7 @@ def judge06Step (j : J06) (prev next : Step) (ln : Bytes) (txt : Bytes) (icase :
             | none => none
           else none)
       else []
-    { st := if e1.isEmpty then s' else { RefSt.ofText next.text s'.nextId with kwd := s'.kwd, kwdDir := s'.kwdDir },
+    { st := if e1.isEmpty then s' else (s'.resync next),
       errs := j.errs ++ e1 ++ e2 ++ e3.take 1 }
 
 /-! ### C14: substitute -/
